@@ -297,6 +297,10 @@ def _worker_body(profile, tier, seeds, deadline, want_samples, filt):
             sweep_truncations(plan, res, seed, out, deadline)
             if out['violations']:
                 break
+        elif profile in ('torn', 'stale') and seed % (160 if tier == 'quick' else 56) == 21 and time.time() < deadline:
+            sweep_pairs(seed, tier, out, deadline)
+            if out['violations']:
+                break
     faulthandler.cancel_dump_traceback_later()
     return out
 
@@ -676,3 +680,68 @@ def write_evidence(prop, tier, base_seed, agg, st_msg, violations_new, extra=Non
         ev['coverage'].update(extra)
     with open(evidence_path(prop), 'w') as f:
         json.dump(ev, f, indent=1, default=str)
+
+
+def sweep_pairs(seed, tier, out, deadline):
+    """Systematic interleavings of two concurrent actors at file-system-call granularity: for the
+    next scenario template, every point k at which actor A can be pre-empted in favour of B (B then runs
+    to its end: all schedules with one pre-emption), and for every k every (strided) point j at which
+    B hands back to A (two pre-emptions).  Fault-free; every run is judged by the ordinary oracle."""
+    cw, gen = _lazy()
+    template = gen.PAIR_TEMPLATES[(seed // 7) % len(gen.PAIR_TEMPLATES)]
+    plan, ia, ib = gen.make_pair_plan(seed, template)
+    c = out['counters']
+
+    def run(cand, tag):
+        try:
+            r = replay_plan(cand)
+        except BaseException as e:
+            out['harness'].append('pair sweep of seed %d (%s): %r' % (seed, tag, e))
+            return None
+        out['runs'] += 1
+        out['steps'] += r['steps']
+        c['sweep.pair_schedules'] = c.get('sweep.pair_schedules', 0) + 1
+        for k, v in r['counters'].items():
+            if k.startswith('probe.') or k == 'yield':
+                c[k] = c.get(k, 0) + v
+        if r['harness_error']:
+            out['harness'].append('pair sweep of seed %d (%s): %s' % (seed, tag, r['harness_error']))
+            return None
+        out['digests'][r['digest']] = seed
+        if r['violation'] is not None:
+            out['violations'].append({'seed': seed, 'plan': cand, 'violation': r['violation'], 'digest': r['digest']})
+        return r
+
+    base = run(copy.deepcopy(plan), 'sequential')
+    if base is None or out['violations']:
+        return
+    steps = {}
+    for ev in base['events']:
+        if ev[0] == 's':
+            steps[ev[1]] = steps.get(ev[1], 0) + 1
+    na, nb = steps.get(ia, 0), steps.get(ib, 0)
+    c['sweep.pair_scenarios'] = c.get('sweep.pair_scenarios', 0) + 1
+    c['sweep.pair.' + template] = c.get('sweep.pair.' + template, 0) + 1
+    b_is_proc = plan['ops'][ib].get('p') is not None
+    stride = 1 if tier != 'quick' else 2
+    for k in range(na):
+        if time.time() > deadline:
+            return
+        cand = copy.deepcopy(plan)
+        cand['ops'][ia]['t'] = [0] * k + [1]                      # at A's (k+1)-th call: start the next op (B)
+        r = run(cand, 'k=%d' % k)
+        if r is None or out['violations']:
+            return
+        if not b_is_proc:
+            continue                                              # the editor's save is atomic
+        nbk = nb + 6
+        for j in range(0, nbk, stride):
+            for d in (1, 2):                                      # (resume A is choice 1 or 2, depending on what can start)
+                if time.time() > deadline:
+                    return
+                cand = copy.deepcopy(plan)
+                cand['ops'][ia]['t'] = [0] * k + [1]
+                cand['ops'][ib]['t'] = [0] * j + [d]
+                r = run(cand, 'k=%d j=%d d=%d' % (k, j, d))
+                if r is None or out['violations']:
+                    return
